@@ -43,10 +43,14 @@ theorem ite_val (c : Prop) [Decidable c] (a b : Out) : (if c then a else b).val 
 theorem ite_wr (c : Prop) [Decidable c] (a b : Out) : (if c then a else b).wr = if c then a.wr else b.wr := by
   split <;> rfl
 
+/-- the implementation's `x_len_NC_attrV` is the format's "values padded to 4 bytes" -/
+theorem xlen_eq_headerBytes (t : XT) (n : Nat) : xlen t n = headerBytes t n := by
+  cases t <;> simp only [xlen, headerBytes, elemSize] <;> omega
+
 /-- unfold model and specification completely -/
 macro "mode_simp" : tactic => `(tactic|
   simp [step, specStep, abs, absOut, ret, aclosed, closed, modeOf, specErr, rule, modeErr, firstErr, effect,
-        Cfg.repaired, Cfg.pinned, Cfg.pinnedMulti, vNoGlobal, vOrGlobal, growsInData, isRejection, isModeCall,
+        PnVerif.ModeLemmas.xlen_eq_headerBytes, Cfg.repaired, Cfg.pinned, Cfg.pinnedMulti, vNoGlobal, vOrGlobal, growsInData, isRejection, isModeCall,
         PnVerif.ModeLemmas.ite_err, PnVerif.ModeLemmas.ite_st, PnVerif.ModeLemmas.ite_del,
         PnVerif.ModeLemmas.ite_val, PnVerif.ModeLemmas.ite_wr,
         Drv.enddef, Drv.endIndep, Drv.beginIndep, Drv.redef, Drv.cancelAll, Drv.close, Drv.abort,
